@@ -156,6 +156,8 @@ Proof.
   - (* etl::erase_if(s, pred) *)
     inversion H; subst. destruct (free_erase_if_ref (pred_of k) s I) as (s' & n & E & K & C & _).
     rewrite E. cbn [rbind fst]. exists s'. split; [reflexivity|]. split; [exact K|exact C].
+  - (* append(first, last), iterators that are not random access *) inversion H; subst. rewrite slen_app, L in Hfit.
+    apply append_range_cat_ref; [exact I|]. change zlen with slen. lia.
 Qed.
 
 (* the count returned by etl::erase / etl::erase_if is the std one *)
@@ -239,4 +241,17 @@ Proof.
   apply Forall_app in W as (W1 & _). apply Forall_app in A as (A1 & _).
   destruct (history_refines c ck ops1 l1 Hc W1 A1 H1) as (s1 & E & C & G & T & _).
   exists l1, s1. tauto.
+Qed.
+
+(** * a pointer into the string itself: [self_src s off] (Model.v) with off + n <= size() denotes the n characters
+      of the contents from off on, so the refinement theorems apply to s.append(s.data() + off, n) etc. with the std
+      result "the same call on std::string" *)
+Lemma self_src_prefix s off n : inv s -> 0 <= off -> 0 <= n -> off + n <= get_size s ->
+  s_prefix (self_src s off) n = Some (take n (drop off (contents s))).
+Proof.
+  intros (Hc & Hl & Hs & _) Ho Hn Hfit. unfold s_prefix, self_src, take, drop, contents.
+  assert (Hlen : slen (skipn (Z.to_nat off) (buf s)) = cap s + 1 - off).
+  { unfold slen. rewrite skipn_length. unfold zlen in Hl. lia. }
+  rewrite Hlen. replace (n <=? cap s + 1 - off) with true by lia. f_equal.
+  rewrite skipn_firstn_comm. rewrite firstn_firstn. f_equal. lia.
 Qed.
